@@ -8,7 +8,9 @@ CONFIG = worlda.base_config(
     rule="seeded histories of SELECT/EXAMINE, APPEND, STORE(+-\\Deleted mostly), EXPUNGE, UID EXPUNGE, COPY, MOVE, CLOSE, IDLE/DONE, NOOP, CHECK and "
     "external deliveries from 2-3 sessions on 1-2 shared mailboxes; half the programs run the sessions concurrently (stream monitors only), half "
     "sequentially (plus flush-equality against the reference model). non-trivial = concurrent programs, or sequential ones in which an EXPUNGE "
-    "removed messages or a delivery happened; distinct = distinct (actor, op-kind) sequence signatures",
+    "removed messages or a delivery happened. Every 12th program is the idle-race family (a session behind a slow link starts an IDLE while "
+    "more than a socket buffer of notifications is pending for it and another session expunges messages one at a time). "
+    "distinct = distinct (actor, op-kind) sequence signatures",
     level_text="every response a session receives is replayed into that session's view at delivery time: EXISTS may not shrink the view, EXPUNGE/FETCH "
     "numbers must lie inside it, no EXPUNGE during a non-UID FETCH/STORE/SEARCH or outside a command, a sequence number never re-binds to another "
     "UID, content returned for a sequence number is the message the view binds to it, and after NOOP/CHECK/IDLE the view equals the message "
@@ -45,4 +47,41 @@ def post(prog, r, tier, prof):
     return prog
 
 
-generate, execute, simplifications = _common.make(PROP, profile, CONFIG, post)
+_gen, execute, simplifications = _common.make(PROP, profile, CONFIG, post)
+
+
+def generate(seed, tier, index, kf):
+    """Every 12th program is the *idle-race* family: session sa sits behind a slow link with a small socket buffer; sb puts
+    far more than that buffer of flag notifications on sa's pending list; sa starts an IDLE (the flush of the pending
+    list waits in drain()) and sb expunges messages one by one during and after that flush. EXPUNGEs must reach sa in
+    the order they were applied: at quiescence its replayed view equals the message list."""
+    import random
+
+    if index % 12 != 11:
+        return _gen(seed, tier, index, kf)
+    from gen import mailstore
+
+    r = random.Random(seed)
+    store, tok = mailstore.initial_store(r, ["inbox"], 24, 40, kw=None, shapes=["plain"])
+    n = len(store["mailboxes"][0]["msgs"])
+    kws = ["K%02d%s" % (k, "x" * 56) for k in range(r.randint(24, 40))]
+    ops = [{"s": s_, "op": "select", "mbox": "inbox", "examine": False} for s_ in ("sa", "sb")]
+    ops.append({"s": "sb", "op": "store", "uid": False, "set": {"all": True}, "how": "+", "flags": kws, "silent": True})
+    ops.append({"s": "sa", "op": "idle", "when": {"delay": 0.0}})
+    victims = r.sample(range(1, n + 1), min(n, r.randint(2, 5)))
+    t = 0.0
+    for v in victims:
+        t = r.choice((0.0, 0.05, 0.3, 0.8, 1.5))
+        ops.append({"s": "sb", "op": "store", "uid": True, "set": {"uids": [v]}, "how": "+", "flags": ["\\Deleted"], "silent": True, "when": {"delay": t}})
+        ops.append({"s": "sb", "op": "expunge", "when": {"delay": 0.0}})
+    ops.append({"s": "sa", "op": "done", "when": {"delay": r.choice((0.5, 2.0, 4.0))}})
+    ops.append({"s": "sa", "op": "noop", "when": {"delay": 0.1}})
+    ops.append({"s": "sb", "op": "noop", "when": {"delay": 0.1}})
+    for op in ops:
+        op.setdefault("when", {"delay": 0.0})
+    return {
+        "format": 1, "seed": seed, "world": "A", "mode": "concurrent", "compare": False, "family": "idle-race",
+        "latency": {"exec": "small", "db": "small", "net": r.choice(("bimodal", "slow", "wide"))}, "knobs": {"sock_buf": r.choice((128, 512, 2048))}, "buggify": {},
+        "store": store, "sessions": [{"id": "sa", "proto": "imap"}, {"id": "sb", "proto": "imap"}], "ops": ops, "props": [PROP],
+    }
+
